@@ -79,7 +79,7 @@ def spec_of(state):
     return {"nodes": {n: list(v) for n, v in sorted(nodes.items())}, "edges": sorted(map(list, edges))}
 
 
-def run(ctx, tag, U, vars_, pre, bbs, op, posts, split=(0, 0), conf_every=1, detail=None, normalize_ret=None, compare_ret=True):
+def run(ctx, tag, U, vars_, pre, bbs, op, posts, split=(0, 0), conf_every=1, detail=None, normalize_ret=None, compare_ret=True, reachable=None):
     """bbs: dict inst -> (ins, outs) (concrete registry);  op(c) -> value;  posts(preA, postA, outcome, names) -> [(name, formula, sig, what)]"""
     import circuitgraph as cg
 
@@ -119,7 +119,11 @@ def run(ctx, tag, U, vars_, pre, bbs, op, posts, split=(0, 0), conf_every=1, det
                     failed.append((n2, s2, w2))
             d = dict(detail or {}, pre_state=spec_of(before), post_state=spec_of(after), outcome=rout.key(), registry=sorted(bbs), symbolic_outcome=out.key())
             hit = [x for x in failed if x[0] == name]
-            if hit:
+            if hit and reachable is not None and not reachable(before):
+                # a counterexample from a pre-state no API history reaches: the invariant is too weak, not a finding
+                ctx.count("unreached_pre_states")
+                ctx.harness_error(f"E2 counterexample for {tag}:{name} starts from a pre-state the public API cannot build (strengthen the invariant)", d)
+            elif hit:
                 stats["viol"] += 1
                 ctx.violation(hit[0][1], f"{tag}: {hit[0][2]}", d, tag=f"{tag}:{name}")
             else:
